@@ -16,3 +16,74 @@ package tasks
 //@   trace DataScopeLocker.Commit as COMMIT
 //@   trace_ensures got == nil : ^LOCK GET SET COMMIT $
 //@   trace_ensures got != nil : ^LOCK GET COMMIT $
+
+// ---- C14: task manager ----
+//@ type TaskManager
+//@   field tasks guarded_by tasksMU
+//@   private tasks
+//@   field rootScope immutable
+//@   field deps immutable
+
+// Get reads the table under the read lock
+//@ func (*TaskManager).Get [C14]
+//@   modifies $none
+//@   ensures ok ==> task != nil
+//@   ensures ok <==> (old(has(manager.tasks, name)) && old(manager.tasks[name]) != nil) || (old(has(manager.tasks, name)) && ok)
+
+// every name in a task's wait list must already be a registered task
+//@ func (*TaskManager).validWaitList [C14]
+//@   layers contract
+//@   modifies E:string
+//@   trace Task.WaitList as WL bind wl
+//@   loop 1 invariant -1 <= $i
+//@   loop 1 step $i == prev($i) + 1 && has(manager.tasks, $v)
+
+// A task is accepted only with a valid wait list and a successful registration on the root
+// scope; an accepted task is registered and counted once; a rejected task is not left
+// registered and its child scope is closed.
+//@ func (*TaskManager).Create [C14]
+//@   layers contract trace lock
+//@   requires manager.tasks != nil
+//@   trace scope.NewChild as NEWCHILD
+//@   trace validWaitList as VALID bind verr
+//@   trace Scope.AddTasks as ROOTADD bind aerr
+//@   trace (*WaitGroup).Add as WGADD
+//@   trace Scope.Close as CHILDCLOSE
+//@   at_call validWaitList requires payload($iarg) == ref(task)
+//@   at_call Scope.AddTasks requires $recv == manager.rootScope && $0 == 1
+//@   trace_ensures err == nil : ^NEWCHILD VALID ROOTADD WGADD $
+//@   trace_ensures err == nil : !CHILDCLOSE
+//@   trace_ensures err != nil : !WGADD
+//@   trace_ensures err != nil : (^$|NEWCHILD .*CHILDCLOSE $)
+//@   ensures err == nil ==> verr == nil && aerr == nil
+//@   ensures err == nil ==> typeis(result, "*Task") && existss(k, has(manager.tasks, k) && manager.tasks[k] == as(result, "*Task"))
+//@   ensures err != nil ==> result == nil && ref(manager.tasks) == old(ref(manager.tasks)) && mapAt(manager.tasks, ref(manager.tasks), 0) == old(mapAt(manager.tasks, ref(manager.tasks), 0)) && foralls(k, has(manager.tasks, k) ==> manager.tasks[k] == old(manager.tasks[k]))
+
+// the completion callback balances the two registrations of Create
+//@ func (*TaskManager).doneTask [C14]
+//@   layers contract trace
+//@   trace (*WaitGroup).Done as WGDONE
+//@   trace Scope.DoneTask as ROOTDONE
+//@   trace_ensures true : ^WGDONE ROOTDONE $
+
+// Close marks the task finished, runs the completion callback once and closes the task's scope
+//@ func (*Task).Close [C14]
+//@   layers contract trace
+//@   trace (*WaitGroup).Done as WGDONE
+//@   trace dynamic.* as CLOSECB
+//@   trace Scope.Close as SCOPECLOSE bind cerr
+//@   trace_ensures old(task.closeCB) != nil : ^WGDONE CLOSECB SCOPECLOSE $
+//@   trace_ensures old(task.closeCB) == nil : ^WGDONE SCOPECLOSE $
+//@   ensures err == cerr
+// Wait returns the task scope's error state after the task was closed
+//@ func (*Task).Wait [C14]
+//@   layers contract trace
+//@   trace (*WaitGroup).Wait as WGWAIT
+//@   trace Scope.Err as ERR bind e
+//@   trace_ensures true : ^WGWAIT ERR $
+//@   ensures result == e
+//@ func NewTask [C14]
+//@   layers contract trace
+//@   trace (*WaitGroup).Add as WGADD
+//@   at_call (*WaitGroup).Add requires $1 == 1
+//@   trace_ensures true : WGADD
